@@ -162,6 +162,7 @@ package simpledb
 
 //@ func executeCompaction
 //@   props C06 C02 C11 C01
+//@   bounded compaction_cycle reads unchanged by a compaction cycle and after restart: 5 fixed table lineages
 //@   replay compaction_cycle
 //@   requires db.sstableManager != nil && db.sstableManager.managerLock != nil
 //@   requires forall t :: 0 <= t && t < len(db.sstableManager.allSSTableReaders) ==> db.sstableManager.allSSTableReaders[t] != nil
